@@ -15,7 +15,7 @@ import (
 
 // C14 — bad input yields a diagnostic and a non-zero exit, never a crash or hang.
 
-var c14Sigma = []string{"a", ".", "(", ")", "$", "1", "/", `\`, "[", "*", " ", "é"}
+var c14Sigma = []string{"a", ".", "(", ")", "$", "1", "/", `\`, "[", "*", " ", "é", "\u00a0"}
 
 var c14ArgKeywords = []string{"style", "match", "recv", "skip", "map", "conv", "literal", "preprocess", "postprocess"}
 var c14PlainKeywords = []string{"case", "case:off", "getter", "getter:off", "stringer", "stringer:off", "typecast", "typecast:off", "reverse", "convergen", "foo", "tag", "conv:type", "conv:with"}
@@ -51,6 +51,10 @@ type D struct {
 func F(i int) int    { return i }
 func H(d *D, s *S)   {}
 func (s *S) G() int  { return s.A }
+func (s *S) Reset()            {}
+func (s *S) Two() (int, int)   { return 1, 2 }
+func (s *S) Arg(i int) int     { return i }
+func (s *S) GErr() (int, error) { return 1, nil }
 
 var V = 1
 
@@ -217,6 +221,73 @@ func c14RefCells() []*scen.Cell {
 	return cells
 }
 
+// part (b2): source path forms of :map / :conv (fields, getters, void / multi-result / parameterised methods, non-members)
+var c14SrcForms = []string{"G()", "Reset()", "Two()", "Arg()", "GErr()", "Reset().A", "G().X", "GErr().X", "A()", "A.B", "V", "K", "T", "S", "nil", "$1.Reset()", "$1.Two()", "$2", "$0", "Reset", "G", "()", "G()()", "G().", ".G()"}
+
+func c14SrcCells() []*scen.Cell {
+	var cells []*scen.Cell
+	for si, sf := range c14SrcForms {
+		for ki, kw := range []string{"map", "conv"} {
+			for merr := 0; merr < 2; merr++ {
+				note := "// :map " + sf + " X"
+				if kw == "conv" {
+					note = "// :conv F " + sf + " X"
+				}
+				sig := "Conv(*S) *D"
+				if merr == 1 {
+					sig = "Conv(*S) (*D, error)"
+				}
+				src := c14Prelude + "\ntype Convergen interface {\n\t" + note + "\n\t" + sig + "\n}\n"
+				m := c14Meta{Part: "b", Keyword: kw, Arg: sf, NeedPos: true, Methods: []string{"Conv"}}
+				m.BadLines = []int{lineOf(src, note+"\n"), lineOf(src, "\t"+sig)}
+				cells = append(cells, &scen.Cell{ID: fmt.Sprintf("c14b2_%d_%d_%d", si, ki, merr), Family: "C14b-source-forms", Files: map[string]string{"setup.go": src}, Meta: m})
+			}
+		}
+	}
+	return cells
+}
+
+// part (f): a faulty method in one converter interface next to a flawless interface, in both name orders:
+// the run must fail, or at least must not succeed while dropping the methods of the faulty interface
+var c14Faulty = []struct{ note, sig string }{
+	{"// :style sideways", "Bad(*S) *D"},
+	{"// :map a", "Bad(*S) *D"},
+	{"// :conv Missing A X", "Bad(*S) *D"},
+	{"// :skip /[/", "Bad(*S) *D"},
+	{"// :recv 1x", "Bad(*S) *D"},
+	{"// :literal X )(", "Bad(*S) *D"},
+	{"// :preprocess Missing", "Bad(*S) *D"},
+	{"// :reverse", "Bad(*S) *D"},
+	{"", "Bad() *D"},
+	{"", "Bad(*S)"},
+	{"", "Bad(int) *D"},
+	{"// :match sometimes", "Bad(*S) *D"},
+}
+
+func c14TwoIntfCells() []*scen.Cell {
+	var cells []*scen.Cell
+	for fi, f := range c14Faulty {
+		for order := 0; order < 2; order++ {
+			faultyName, cleanName := "Aaa", "Zzz"
+			if order == 1 {
+				faultyName, cleanName = "Zzz", "Aaa"
+			}
+			note := ""
+			if f.note != "" {
+				note = "\t" + f.note + "\n"
+			}
+			src := c14Prelude + "\n// :convergen\ntype " + faultyName + " interface {\n\tGoodOne(*S) *D\n" + note + "\t" + f.sig + "\n}\n\n// :convergen\ntype " + cleanName + " interface {\n\tOther(*S) *D\n}\n"
+			m := c14Meta{Part: "f", Keyword: strings.TrimPrefix(strings.Fields(f.note + " // :-")[1], ":"), Arg: f.sig, NeedPos: true, Methods: []string{"GoodOne", "Bad", "Other"}}
+			m.BadLines = []int{lineOf(src, "\t"+f.sig+"\n")}
+			if f.note != "" {
+				m.BadLines = append(m.BadLines, lineOf(src, f.note+"\n"))
+			}
+			cells = append(cells, &scen.Cell{ID: fmt.Sprintf("c14f_%d_%d", fi, order), Family: "C14f-two-interfaces", Files: map[string]string{"setup.go": src}, Meta: m})
+		}
+	}
+	return cells
+}
+
 // part (c): method signatures
 var c14Operands = []string{"S", "*S", "**S", "int", "*int", "[]S", "map[string]S", "interface{}", "error", "func()", "Unresolved", "...S", "ext.S", "*ext.S", "struct{ A int }", "*struct{ A int }", "chan S", "[2]S", "T"}
 
@@ -356,6 +427,8 @@ func init() {
 			}
 		}
 		cells = append(cells, c14RefCells()...)
+		cells = append(cells, c14SrcCells()...)
+		cells = append(cells, c14TwoIntfCells()...)
 		cells = append(cells, c14SigCells(th)...)
 		cells = append(cells, c14FileCells()...)
 		// part (d): every field type as unmatched, matched and nested destination (crash oracle)
@@ -367,9 +440,9 @@ func init() {
 		e.Rep.Bound("notation_argument_length_max", maxLen)
 		e.Rep.Rule(fmt.Sprintf("(a) 9 argument-taking notation keywords x every argument string over the %d-symbol alphabet %q up to length %d (method doc; interface doc too for style/match) + all 2-slot strings + 14 plain/unknown keywords x {empty, junk}; "+
 			"(b) :conv/:preprocess/:postprocess naming %d objects (undefined, var, const, type, method expressions, unexported/missing imported, unknown qualifier, builtins, funcs with 0..3 params x 0..3 results x error position, variadic) x method with/without error; "+
-			"(c) method signatures: %d operand kinds squared + params 0..3 x results 0..3 x error position; (d) every field-type pair of F1; (e) files without a usable converter interface and odd CLI inputs. "+
+			"(c) method signatures: %d operand kinds squared + params 0..3 x results 0..3 x error position; (d) every field-type pair of F1; (e) files without a usable converter interface and odd CLI inputs; (b2) %d source path forms of :map/:conv (void, multi-result, parameterised and error-returning methods, non-members); (f) %d kinds of faulty method in one converter interface next to a flawless one, in both name orders. "+
 			"Oracle: terminates; exit in {0,1}; no panic/fatal on stderr; exit != 0 => message on stderr, and for (a)(b)(c) a line `<abs setup path>:<line>:<col>:` whose line is the offending notation's or method's; exit 0 => every method of every marked interface has its function. "+
-			"non-trivial = rejected cell (distinct diagnostics are counted as outcomes)", len(c14Sigma), c14Sigma, maxLen, len(c14Objects)+len(c14FuncShapes()), len(c14Operands)))
+			"non-trivial = rejected cell (distinct diagnostics are counted as outcomes)", len(c14Sigma), c14Sigma, maxLen, len(c14Objects)+len(c14FuncShapes()), len(c14Operands), len(c14SrcForms), len(c14Faulty)))
 		var sampled atomic.Int32
 		deadline := time.Now().Add(14 * time.Minute)
 		var skipped atomic.Int64
